@@ -221,6 +221,19 @@ Definition payload (s : sched) : string * list bool * list (Q * Q) * Q :=
 Definition pieces (s : sched) : list sched :=
   if wraps s then [set_end s [12; 31]%Z; set_start s [1; 1]%Z] else [s].
 
+(* p is the rate of the latest breakpoint at or before th; if that breakpoint is listed more than once
+   (never in the bundled files) the code returns the largest of its rates *)
+Definition latest_breakpoint_rate (l : list (Q * Q)) (th p : Q) : Prop :=
+  exists b, In (b, p) l /\ b <= th /\
+            forall b' p', In (b', p') l -> b' <= th -> b' < b \/ (b' == b /\ p' <= p).
+
+(* the terms price_k * power_k * dt of the energy cost *)
+Fixpoint cost_terms (prices agg : list Q) (dt : Q) : list Q :=
+  match prices, agg with
+  | p :: ps, a :: r => p * a * dt :: cost_terms ps r dt
+  | _, _ => []
+  end.
+
 (* first error wins, left to right *)
 Fixpoint res_seq {A} (l : list (res A)) : res (list A) :=
   match l with
